@@ -56,8 +56,19 @@ class Module:
         for a in st.names:
           self.imports[a.asname or a.name.split('.')[0]] = a.name if a.asname else a.name.split('.')[0]
       elif isinstance(st, ast.ImportFrom):
+        base = st.module
+        if getattr(st, 'level', 0):
+          # relative import: resolve against the package of this module
+          pkg = os.path.dirname(relpath).replace(os.sep, '.').split('.')
+          pkg = pkg[:len(pkg) - (st.level - 1)] if st.level > 1 else pkg
+          base = '.'.join(pkg + ([st.module] if st.module else []))
         for a in st.names:
-          self.imports[a.asname or a.name] = '%s.%s' % (st.module, a.name)
+          self.imports[a.asname or a.name] = '%s.%s' % (base, a.name)
+      elif isinstance(st, ast.AnnAssign) and isinstance(st.target, ast.Name) and st.value is not None:
+        self.assigns[st.target.id] = st.value          # NAME: Final[str] = 'x'
+        d = dotted(st.value)
+        if d:
+          self.aliases[st.target.id] = d
       elif isinstance(st, ast.Assign) and len(st.targets) == 1 and isinstance(st.targets[0], ast.Name):
         self.assigns[st.targets[0].id] = st.value
         d = dotted(st.value)
@@ -97,7 +108,7 @@ class FuncInfo:
 
   @property
   def qualname(self):
-    base = self.module.name
+    base = getattr(self, 'home_module', None).name if getattr(self, 'home_module', None) is not None else self.module.name
     if self.outer is not None:
       return '%s.<locals>.%s' % (self.outer.qualname, self.name)
     if self.cls is not None:
@@ -202,21 +213,84 @@ class Repo:
         if name == '__init__':
           continue
         m = Module(name, path, os.path.join(d, fn), src)
-        if flatten:
-          from mmsa import decor
-          m.decorators_expanded = decor.expand_module(m.tree)
-          m.branch_defs_merged = decor.merge_branch_defs(m.tree)
         self.modules[name] = m
-        for st in m.tree.body:
-          if isinstance(st, ast.ClassDef):
-            c = ClassInfo(m, st)
-            self.classes[c.qualname] = c
-            for f in c.all_functions():
-              self.functions[f.qualname] = f
-          elif isinstance(st, (ast.FunctionDef, ast.AsyncFunctionDef)):
-            f = FuncInfo(m, st)
+    if flatten:
+      from mmsa import decor
+      for m in self.modules.values():
+        # decorators defined in another module of the package and imported here
+        imported = {}
+        for local, target in m.imports.items():
+          parts = target.split('.')
+          if parts[:2] in (['matched_markets', 'methodology'], ['matched_markets', 'examples']) and len(parts) >= 3 and parts[2] in self.modules:
+            om = self.modules[parts[2]]
+            odefs = {s_.name: s_ for s_ in om.tree.body if isinstance(s_, ast.FunctionDef)}
+            if len(parts) == 4 and parts[3] in odefs:
+              imported[local] = odefs[parts[3]]
+            elif len(parts) == 3:
+              for n_, d_ in odefs.items():
+                imported['%s.%s' % (local, n_)] = d_
+        # a decorator from another module is expanded only when its wrapper reads no module-level name of its own module
+        import builtins as _bi
+        safe = {}
+        for k_, d_ in imported.items():
+          free = {x.id for x in ast.walk(d_) if isinstance(x, ast.Name) and isinstance(x.ctx, ast.Load)} \
+              - {x.id for x in ast.walk(d_) if isinstance(x, ast.Name) and isinstance(x.ctx, ast.Store)} \
+              - {a_.arg for x in ast.walk(d_) if isinstance(x, ast.arguments) for a_ in x.args + x.kwonlyargs + x.posonlyargs + ([x.vararg] if x.vararg else []) + ([x.kwarg] if x.kwarg else [])} \
+              - {x.name for x in ast.walk(d_) if isinstance(x, ast.FunctionDef)}
+          if all(hasattr(_bi, n_) or n_ in ('functools',) and 'functools' in m.imports for n_ in free):
+            safe[k_] = d_
+        m.logging_dropped = decor.drop_logging(m.tree)
+        m.local_annotations = decor.strip_local_annotations(m.tree)
+        m.decorators_expanded = decor.expand_module(m.tree, safe)
+        m.branch_defs_merged = decor.merge_branch_defs(m.tree)
+    for name, m in self.modules.items():
+      for st in m.tree.body:
+        if isinstance(st, ast.ClassDef):
+          c = ClassInfo(m, st)
+          self.classes[c.qualname] = c
+          for f in c.all_functions():
             self.functions[f.qualname] = f
+        elif isinstance(st, (ast.FunctionDef, ast.AsyncFunctionDef)):
+          f = FuncInfo(m, st)
+          self.functions[f.qualname] = f
+    if flatten:
+      self.inherited = self._flatten_hierarchy()
+    # record types of the package: field order of namedtuples, NamedTuple classes and dataclasses without an __init__ /
+    # __post_init__ of their own (the constructor then stores its arguments under the field names)
+    from mmsa import dataflow as _df
+    _df.RECORD_FIELDS.clear()
+    _df.RECORD_KIND.clear()
+    amb = set()
+    def _reg(name_, flds_, kind_):
+      if name_ in _df.RECORD_FIELDS and _df.RECORD_FIELDS[name_] != flds_:
+        amb.add(name_)
+      _df.RECORD_FIELDS[name_] = flds_
+      _df.RECORD_KIND[name_] = kind_
+    for m_ in self.modules.values():
+      for n_, v_ in m_.assigns.items():
+        if isinstance(v_, ast.Call) and norm(v_.func).endswith('namedtuple') and len(v_.args) == 2:
+          f_ = v_.args[1]
+          if isinstance(f_, (ast.List, ast.Tuple)) and all(isinstance(x_, ast.Constant) for x_ in f_.elts):
+            _reg(n_, [x_.value for x_ in f_.elts], 'tuple')
+          elif isinstance(f_, ast.Constant) and isinstance(f_.value, str):
+            _reg(n_, f_.value.replace(',', ' ').split(), 'tuple')
+    for c_ in self.classes.values():
+      if any(b_.split('.')[-1] == 'NamedTuple' for b_ in c_.bases) and c_.field_order:
+        _reg(c_.name, list(c_.field_order), 'tuple')
+      elif c_.is_dataclass and c_.field_order and '__init__' not in c_.methods and '__post_init__' not in c_.methods \
+          and not any('ClassVar' in norm(a_) or 'InitVar' in norm(a_) for a_ in c_.annotations.values()) \
+          and not any(isinstance(v_, ast.Call) and 'field' in norm(v_.func) and 'init=False' in norm(v_) for v_ in c_.attrs.values() if v_ is not None):
+        _reg(c_.name, list(c_.field_order), 'dataclass')
+    for n_ in amb:
+      _df.RECORD_FIELDS.pop(n_, None)
     from mmsa import au as _au
+    _au.GLOBAL_IMPORTS.clear()
+    for m_ in self.modules.values():
+      for k_, t_ in m_.imports.items():
+        _au.GLOBAL_IMPORTS.setdefault(k_, set()).add(t_)
+    _au.CLASS_VALUE_ATTRS.clear()
+    for c_ in self.classes.values():
+      _au.CLASS_VALUE_ATTRS.update(n_ for n_ in c_.attrs if n_ not in c_.methods and n_ not in c_.getters)
     _au.REPO_DEFINED.clear()
     _au.REPO_DEFINED.update(f_.name for f_ in self.functions.values())
     _au.REPO_DEFINED.update(c_.name for c_ in self.classes.values())
@@ -234,6 +308,8 @@ class Repo:
       import json
       from mmsa import canon, inline
       from mmsa import specialise
+      self.enum_values = specialise.enum_values(self)
+      self.value_copies = specialise.copies_of_value_fields(self)
       self.class_constants = specialise.class_constants(self)
       self.keyword_defaults = specialise.keyword_defaults(self)
       self.hoisted_walrus = canon.hoist_walrus_repo(self)
@@ -277,6 +353,61 @@ class Repo:
             compile(mod_, '<normalised %s>' % q_, 'exec')
           except Exception as ex_:     # pragma: no cover
             raise AnalysisError('normalisation produced a malformed function %s: %s' % (q_, ex_))
+
+  def _flatten_hierarchy(self):
+    """A class whose bases are defined in the package gets the methods, properties, class attributes and annotated
+    fields it inherits (nearest base first, left to right), as if they were written in its body: a refactoring that moves
+    methods of a public class into a mixin or a private base class leaves the class, as the rules see it, unchanged.
+    The inherited function keeps its defining module (imports are resolved there) but is a member of the subclass
+    (self.x(...) resolves in the subclass; its qualified name is the subclass's)."""
+    done = []
+    order, seen = [], set()
+
+    def bases_of(c):
+      out = []
+      for b in c.node.bases:
+        try:
+          r = self.resolve_dotted(c.module, dotted(b))
+        except Exception:
+          r = None
+        if r and r[0] == 'class' and r[1] is not c:
+          out.append(r[1])
+      return out
+
+    def visit(c, stack=()):
+      if c.qualname in seen or c in stack:
+        return
+      for b in bases_of(c):
+        visit(b, stack + (c,))
+      seen.add(c.qualname)
+      order.append(c)
+    for c in list(self.classes.values()):
+      visit(c)
+    for c in order:
+      for b in bases_of(c):
+        for table in ('methods', 'getters', 'setters'):
+          for n_, h in getattr(b, table).items():
+            if n_ in c.methods or n_ in c.getters and table != 'setters' or n_ in c.setters and table == 'setters':
+              continue
+            if table == 'setters' and n_ in c.getters and n_ not in b.getters:
+              continue
+            g = FuncInfo(h.module, h.node, c, h.kind)
+            g.home_module = c.module
+            g.inherited_from = b.qualname
+            getattr(c, table)[n_] = g
+            self.functions[g.qualname] = g
+            done.append('%s <- %s' % (g.qualname, b.qualname))
+        for n_, v in b.attrs.items():
+          c.attrs.setdefault(n_, v)
+        new_ann = {n_: a_ for n_, a_ in b.annotations.items() if n_ not in c.annotations}
+        if new_ann:
+          merged = dict(new_ann)
+          merged.update(c.annotations)
+          c.annotations = merged
+          c.field_order = [n_ for n_ in b.field_order if n_ not in c.field_order] + c.field_order
+        if b.is_dataclass:
+          c.is_dataclass = True
+    return done
 
   # -- anchors ---------------------------------------------------------------
   def module(self, name):
